@@ -86,7 +86,8 @@ FailsRound(t, k) ==
   IN Tag("placement", BadPlacement(acts \cup snap \cup built, t.ns))
      \cup Tag("calls", BadCalls(SetOf(RecActs(t, k)), t.ns))
      \cup Tag("sandbox", BadSandbox(acts \cup snap \cup built))
-     \cup Tag("limits", BadLimits(acts \cup built, now) \cup BadLimits(snap, sofar))
+     \cup Tag("limits", BadLimits(acts \cup built, now) \cup BadLimits(snap, now))
+     \cup Tag("leftover", Leftovers(snap, t.ns, Rounds(t)[k].svcs, Rounds(t)[k].st.netpol))
      \cup (IF Rounds(t)[k].st.netpol
            THEN Tag("ingress", BadIngressX(snap, Rounds(t)[k].svcs, allsv, {}) \cup BadIngress(built, Rounds(t)[k].svcs))
                 \cup Tag("egress", BadEgress(snap) \cup BadEgress(built))
@@ -100,6 +101,7 @@ FailsOther(t, k) ==
      \cup Tag("calls", BadCalls(SetOf(RActs(rr)), o.ns))
      \cup Tag("sandbox", BadSandbox(acts \cup snap \cup built))
      \cup Tag("limits", BadLimits(acts \cup built \cup mine2, {r.svcs}))
+     \cup Tag("leftover", Leftovers(snap, o.ns, r.svcs, r.st.netpol))
      \cup (IF mine1 # Mine(LastSnap(t), t.ns) THEN {<<"interference", "neighbour-deploy">>} ELSE {})
      \cup (IF LastMainRound(t).st.netpol
            THEN Tag("ingress", BadIngressX(mine1, LastMainRound(t).svcs, AllMainSvcs(t), NeighbourPods(snap, t.ns)))
